@@ -12,7 +12,9 @@ SPEC = {
              "mapping is brought to the state under test. Matrix: identity (no handshake / refused handshake / listen / target / "
              "unrelated client) x credential (mapping id, right secret, wrong secret, resume token, nothing, own other mapping's id, "
              "own other mapping's secret) x mapping state (active, revoked, expired, inactive, missing) x tunnel state (no bridge, "
-             "bridge waiting, bridge served, waiting on another node, route to this node without bridge) = 875 cells, all on every run; plus random worlds (1-3 "
+             "bridge waiting, bridge served, waiting on another node, route to this node without bridge) = 875 cells, all on every run; late matrix: identity (6, incl. the other mapping's target client) x credential (7) x tunnel that "
+             "appears while the request polls (local bridge opened by the rightful listen client / route to this node / route to "
+             "another node, for mapping M / F) = 252 cells; plus random worlds (1-3 "
              "mappings, shared and empty secrets, clients on both sides, malformed and empty payloads, mostly entitled requests with "
              "at most one thing broken); one end-to-end case (mapping created by the real PortMappingService, listen client and "
              "target client both admitted, bytes flow). Observed: the ack on the "
@@ -32,9 +34,14 @@ SPEC = {
         "skeleton-checked: SetClientID is always followed by SetAuthenticated)",
         "the requesting stream carries no client id of its own (no reader/stream type in the repository implements GetClientID); "
         "the temporary-control-connection branch of findOrCreateControlConnection is therefore not modelled",
-        "tunnel state is the state at arrival: a bridge or route that appears while the request is being handled "
-        "(handleTargetBridge / handleLocalBridgeWait re-lookups) is outside the model; those paths carry the same mapping check "
-        "in the code but are not exercised",
+        "a tunnel that appears while a request polls is modelled as one late event (bridge+route on this node, route on this "
+        "node, route on another node, any mapping) and driven through the real startSourceBridge / RegisterWaitingTunnel after "
+        "the request's acknowledgement is on the wire; the acknowledgement is judged against the state at arrival, the "
+        "attachment against the tunnel that appeared (a request acknowledged at arrival may be dropped later without attachment)",
+        "GenericRepository.Get coalesces concurrent reads (singleflight): a read that starts after a completed write can be handed "
+        "the pre-write value of a read already in flight (observed: notifyTargetClientToOpenTunnel's read vs. a revocation, "
+        "about 1 in 1000 runs); the harness drains in-flight reads after it changes a mapping, so 'mapping state when the "
+        "request arrives' is well defined; requests overlapping such a read are outside the quantifier",
         "secret comparison validateWithSecretKey is a hand-mirrored one-liner (skeleton-checked, exercised by the wrong-secret cells)",
     ],
 }
